@@ -129,8 +129,59 @@ def dropsOk (key : Nat → Nat) (isSet : Bool) (σ0 : CState) (raw : List Sexp) 
 def liveOnly (dead : List Nat) (g : List Fact) : List Fact :=
   g.filter fun r => !dead.contains r.2.1 && !dead.contains r.2.2
 
+/-- one entry of a constructor call: the managed fields of the class IN DATACLASS DECLARATION ORDER (the order in
+which the generated `__init__` assigns them), each with the keyword argument given or its default -/
+def parseCtorItem (S : Schema) (o : Nat) : Sexp → Option (List Op)
+  | .list [.atom "set", f, t] => do pure [.set1 (← f.asNat?) o (← t.asNat?)]
+  | .list (.atom "assign" :: f :: xs) => do pure [.assign (← f.asNat?) o (← parseNats xs)]
+  -- the default: `None` for a single-valued field (nothing is stored or asserted), an empty collection otherwise
+  | .list [.atom "default", f] => do
+      let f ← f.asNat?
+      pure (if S.kindOf f == .single then [] else [.assign f o []])
+  | _ => none
+
+/-- histories in the C15 grammar plus `(ctor o item…)`: instance `o` is created only now, by a constructor call that
+assigns its managed fields one after the other -/
+def parseHOp (S : Schema) : Sexp → Option (List Op)
+  | .list (.atom "ctor" :: o :: items) => do
+      let o ← o.asNat?
+      pure ((← items.mapM (parseCtorItem S o)).flatten)
+  | x => do pure [← parseOp x]
+
+/-- the instances created by a constructor call in the history, and whether nothing refers to them earlier -/
+def ctorsOk (raw : List Sexp) (S : Schema) : Bool :=
+  (raw.foldl (fun (acc : List Nat × Bool) x =>
+    match x with
+    | .list (.atom "ctor" :: o :: _) => (match o.asNat? with | some o => (acc.1.filter (· != o), acc.2) | none => (acc.1, false))
+    | _ => match parseHOp S x with
+      | some ops => (acc.1, acc.2 && (asserted ops).all fun r => !acc.1.contains r.2.1 && !acc.1.contains r.2.2)
+      | none => (acc.1, false))
+    (raw.filterMap (fun x => match x with | .list (.atom "ctor" :: o :: _) => o.asNat? | _ => none), true)).2
+
 def run (s : Sexp) : String :=
   match s with
+  | .list (.atom "hc" :: items) =>
+    -- writes whose inference reaches the written instance's own fields (transitive fields, super-property fields of
+    -- the same instance, constructors that assign several managed fields): graph AND backing fields, the C15 model
+    let raw := (Sexp.field? items "ops").getD []
+    match parseSchema items, parseWorld items with
+    | some S, some W =>
+      match raw.mapM (parseHOp S) with
+      | some opss =>
+        let ops := opss.flatten
+        if !(inRange S W ops && ops.all (·.wellKinded S.kindOf) && ctorsOk raw S &&
+             W.rt.all (fun r => match r with | some x => x < W.size | none => true))
+        then "error=ill-formed-case" else
+        let σ := runModel S W ops
+        -- a re-assignment that drops an earlier ASSERTED element is the open finding F-C15-3 (no retraction), which
+        -- is about C15: this family stays outside it
+        if σ.clob then "error=ill-formed-case" else
+        let cl := closure (schemaRules S W) (fuelFor S W) (asserted ops)
+        let spec := if cl.2 then showRels cl.1 ++ "|" ++ showFields S W [] (fun f o => targetsOf cl.1 f o) cl.1
+                    else "spec-diverged"
+        s!"model={showRels σ.g ++ "|" ++ showFields S W [] (fun f o => σ.st f o) σ.g}\tspec={spec}\ttrig="
+      | none => "error=bad-case"
+    | _, _ => "error=bad-case"
   | .list (.atom "w" :: items) =>
     let raw := (Sexp.field? items "ops").getD []
     match parseSchema items, parseWorld items, (raw.filter (!isEnvEvent ·)).mapM parseCOp,
